@@ -6,7 +6,7 @@ import traceback
 
 sys.path.insert(0, os.path.dirname(os.path.abspath(__file__)))
 rc = 0
-for mod in ("translate_code", "translate_pools", "translate_symtable", "translate_bench", "translate_rng", "translate_misc"):
+for mod in ("translate_code", "translate_loop", "translate_pools", "translate_symtable", "translate_bench", "translate_rng", "translate_misc"):
     if not os.path.exists(os.path.join(os.path.dirname(os.path.abspath(__file__)), mod + ".py")):
         continue
     try:
